@@ -121,7 +121,13 @@ def make_case(index, rng, tier):
         paths = [rng.choice(["/a", "/a", "/sleep/0.3", "/sleep/1.0", "/b"]) for _ in range(nreq)]
         clients.append({"t": round(t, 2), "paths": paths, "gap": round(rng.uniform(0.05, 0.6), 2)})
         t += rng.uniform(0.0, 0.15) if concurrent else rng.uniform(0.3, 1.2)
-    return {"family": fam, "kind": kind, "wconn": rng.choice([2, 3, 20]) if kind in ("gevent", "eventlet") else 20, "max_requests": mr, "jitter": rng.choice([0, 0, 1, 2]), "clients": clients,
+    short_timeout = False
+    if fam == "full" and kind != "sync" and rng.randrange(3) == 0:
+        # a worker timeout shorter than one of the requests (legitimate for the concurrent worker classes: the heartbeat does not depend on
+        # request handling) and shorter than the graceful timeout: the recycling worker must stay alive in the master's eyes while it drains
+        short_timeout = True
+        rng.choice(clients)["paths"][0] = "/sleep/3.0"
+    return {"family": fam, "kind": kind, "short_timeout": short_timeout, "wconn": rng.choice([2, 3, 20]) if kind in ("gevent", "eventlet") else 20, "max_requests": mr, "jitter": rng.choice([0, 0, 1, 2]), "clients": clients,
             "threads": rng.randrange(1, 4), "keepalive": rng.choice([0, 2, 2]), "workers": rng.randrange(1, 3), "binds": rng.choice([1, 1, 2]),
             "buggify": {"pyticks": rng.randrange(3) == 0, "short_recv": rng.randrange(4) == 0, "fork_child_first": rng.randrange(2) == 0}, "preempt": rng.randrange(0, 4)}
 
@@ -262,7 +268,7 @@ def run_full(case, choices):
     kind = case["kind"]
     # timeout 6: a recycled worker that exits before the master registered it (fork/SIGCHLD race) is only forgotten by
     # the timeout scan, i.e. replaced up to `timeout` seconds later
-    cfg = {"workers": case["workers"], "timeout": 6, "graceful_timeout": 5,
+    cfg = {"workers": case["workers"], "timeout": 2 if case.get("short_timeout") else 6, "graceful_timeout": 6 if case.get("short_timeout") else 5,
            "bind": ["127.0.0.1:8000"] + (["127.0.0.1:8001"] if case.get("binds", 1) == 2 else []), "proc_name": "m0",
            "max_requests": case["max_requests"], "max_requests_jitter": case["jitter"], "threads": case["threads"],
            "keepalive": case["keepalive"], "worker_connections": case.get("wconn", 20)}
